@@ -206,8 +206,14 @@ def rule_P2(ctx, only=None, rid='C11.P2.slots'):
             continue
         # builder: what literal
         b = ast.unparse(tasks.args[0].args[0])
-        for d in ast.walk(fn):
-            if isinstance(d, ast.FunctionDef) and d.name == b:
+        # (the builder is a closure of the site or a method of the class)
+        builders = [d for d in ast.walk(fn) if isinstance(d, ast.FunctionDef)
+                    and d.name == b]
+        if not builders and b.startswith('self.'):
+            builders = [d for d in cls.body if isinstance(d, ast.FunctionDef)
+                        and d.name == b[5:]]
+        for d in builders:
+            if True:
                 for k in au.calls(d, 'self._data_or_file'):
                     if k.args and isinstance(k.args[0], ast.Constant):
                         whats.append((qn, k.args[0].value, k))
